@@ -3,6 +3,8 @@
 package verifchain
 
 import (
+	"time"
+
 	"github.com/pion/interceptor"
 	"github.com/pion/rtcp"
 	"github.com/pion/rtp"
@@ -114,4 +116,80 @@ func HC11ReadThenClose() {
 	vr.Cover("closed")
 	vr.Assert(done, "a Read that was in progress when Close was called returns")
 	vr.Assert(vr.LiveThreads() == 0, "no goroutine is left behind after Close")
+}
+
+func mentions(p rtcp.Packet, ssrc uint32) bool {
+	switch x := p.(type) {
+	case *rtcp.SenderReport:
+		return x.SSRC == ssrc
+	case *rtcp.ReceiverReport:
+		for _, r := range x.Reports {
+			if r.SSRC == ssrc {
+				return true
+			}
+		}
+	case *rtcp.TransportLayerNack:
+		return x.MediaSSRC == ssrc
+	case *rtcp.PictureLossIndication:
+		return x.MediaSSRC == ssrc
+	}
+	return false
+}
+
+// HC11Unbind: feedback/report emitters: a stream is bound, sees traffic, a tick produces feedback
+// about it (vacuity witness); after Unbind of that stream returns, further ticks emit nothing about
+// its SSRC.
+func HC11Unbind() {
+	k := vr.Param("kind", 5)
+	it := member(k)
+	about := 0
+	it.BindRTCPWriter(interceptor.RTCPWriterFunc(func(pkts []rtcp.Packet, _ interceptor.Attributes) (int, error) {
+		for _, p := range pkts {
+			if mentions(p, 0x2222) {
+				about++
+			}
+		}
+		return 0, nil
+	}))
+	vr.Yield()
+	info := &interceptor.StreamInfo{SSRC: 0x2222, ClockRate: 90000, PayloadType: 96,
+		RTCPFeedback: []interceptor.RTCPFeedback{{Type: "nack"}, {Type: "nack", Parameter: "pli"}}}
+	seq := uint16(10)
+	local := k == 4
+	buf := make([]byte, 64)
+	if local {
+		w := it.BindLocalStream(info, interceptor.RTPWriterFunc(func(h *rtp.Header, p []byte, _ interceptor.Attributes) (int, error) { return len(p), nil }))
+		_, _ = w.Write(&rtp.Header{Version: 2, SSRC: 0x2222, SequenceNumber: 10, Timestamp: 5}, buf[:2], nil)
+	} else {
+		rd := it.BindRemoteStream(info, interceptor.RTPReaderFunc(func(b []byte, at interceptor.Attributes) (int, interceptor.Attributes, error) {
+			pkt := [12]byte{0x80, 96, byte(seq >> 8), byte(seq), 0, 0, 0, 1, 0, 0, 0x22, 0x22}
+			copy(b, pkt[:])
+			return 12, at, nil
+		}))
+		_, _, _ = rd.Read(buf, nil)
+		seq = 13 // a gap: 11 and 12 are missing
+		_, _, _ = rd.Read(buf, nil)
+	}
+	vr.Yield()
+	now := time.Unix(1800000000, 0)
+	vr.FireTickers(now)
+	vr.Yield()
+	if about > 0 {
+		vr.Cover("feedback about the stream before unbind")
+	}
+	if local {
+		it.UnbindLocalStream(info)
+	} else {
+		it.UnbindRemoteStream(info)
+	}
+	vr.Yield() // anything already in flight may still go out
+	about = 0
+	for t := 0; t < 2; t++ {
+		now = now.Add(time.Second)
+		vr.FireTickers(now)
+		vr.Yield()
+	}
+	vr.Assert(about == 0, "after Unbind returns no further feedback or report about that SSRC is emitted")
+	_ = it.Close()
+	vr.Assert(vr.LiveThreads() == 0, "Close waits for the goroutines")
 }
